@@ -26,6 +26,8 @@ type Case struct {
 	NB           int     `json:"nb,omitempty"`     // leader-bound: number of brokers
 	Spread       []int32 `json:"spread,omitempty"` // leader-bound: item i is led / coordinated by broker Spread[i]; DescribeLogDirs: the broker ids asked
 	Fault        Fault   `json:"fault,omitempty"`
+	// IDBase0: controller-bound cases only: the cluster's brokers are numbered 0 and 1 instead of 1 and 2
+	IDBase0 bool `json:"id_base_0,omitempty"`
 	// Order: operations that ask several brokers at the same time (DescribeLogDirs, ListConsumerGroups): the order in which
 	// the brokers' answers (or connection failures) are released, one at a time; empty = answered as the requests arrive
 	Order []int32 `json:"order,omitempty"`
@@ -251,6 +253,18 @@ func enumerate(tier string, want func(i int) bool) ([]Case, []int, int) {
 					for _, s := range cachedScripts(op, rm+2, -1) {
 						if e.wanted() {
 							e.add(Case{Fam: "ctl-script", Op: op, Version: v, RetryMax: rm, Script: s, NParts: 1, Ctrl0: c0})
+						} else {
+							e.n++
+						}
+					}
+				}
+			}
+			if v == "2.4.0.0" {
+				// the same with brokers numbered from 0 (short scripts): a controller move onto broker 0 is a move like any other
+				for _, c0 := range []int32{1, 2} {
+					for _, s := range cachedScripts(op, 3, -1) {
+						if e.wanted() {
+							e.add(Case{Fam: "ctl-script-id0", Op: op, Version: v, RetryMax: 2, Script: s, NParts: 1, Ctrl0: c0, IDBase0: true})
 						} else {
 							e.n++
 						}
